@@ -7,6 +7,7 @@ from checks.c18 import MAGIC, hdr, cert_rec, pub_rec, sig_rec
 LEVEL = 'exploration'
 RES = {0: 'OK', 1: 'NA', 2: 'FAIL'}
 T0 = 1500000000            # aggregation time of the signatures used with certificates
+T_LEAP = 1464000000        # 2016-05-23: a second aggregation time, after February of a leap year (the library converts certificate dates itself)
 KEY = b'anon'
 EXT_BEHAVIOURS = ['honest', 'other-root', 'other-input-hash', 'other-aggr-time', 'other-pub-time', 'altered-right-link', 'surplus-right-link', 'missing-right-link', 'no-aggr-time-element', 'status-error', 'bad-mac', 'no-reply', 'wrong-id', 'error-pdu']
 WRONG_SHAPE_EXT = ('surplus-right-link', 'missing-right-link')
@@ -38,6 +39,10 @@ class World:
         # validity dates from 2050 on are written as GeneralizedTime (four digit year) in a certificate: one certificate that is valid until 2059,
         # one that only becomes valid in 2051
         self.cert_far = self.ca.issue(subj, T0 - 100000, 2840000000, 'far')
+        self.cert_leapok = self.ca.issue(subj, T_LEAP - 100000, T_LEAP + 100000, 'leapok')
+        self.cert_leapbefore = self.ca.issue(subj, T_LEAP - 100000, T_LEAP - 1, 'leapbefore')
+        self.cert_leapafter = self.ca.issue(subj, T_LEAP + 1, T_LEAP + 100000, 'leapafter')
+        self.cert_leapexact = self.ca.issue(subj, T_LEAP, T_LEAP, 'leapexact')
         self.cert_farafter = self.ca.issue(subj, 2556144000, 2840000000, 'farafter')
         self.pub_times = [T0 + 86400 * 15, T0 + 86400 * 45, T0 + 86400 * 75]
         # for publications files the context downloads itself (they are PKI-verified by the library, with today's clock inside OpenSSL)
@@ -86,7 +91,8 @@ def make_sig(rng, w, kind, work, t=T0, pub_time=None):
             cert = w.cert_ec
             sigval = sign_pubdata(cert, s.cal.pub_time + 1, root, work)     # well-formed ECDSA signature over other data
         else:
-            cert = {'ok': w.cert_ok, 'exact': w.cert_ok2, 'before': w.cert_before, 'after': w.cert_after, 'absent': w.cert_absent, 'far': w.cert_far, 'farafter': w.cert_farafter}[which]
+            cert = {'ok': w.cert_ok, 'exact': w.cert_ok2, 'before': w.cert_before, 'after': w.cert_after, 'absent': w.cert_absent, 'far': w.cert_far, 'farafter': w.cert_farafter,
+                    'leapok': w.cert_leapok, 'leapbefore': w.cert_leapbefore, 'leapafter': w.cert_leapafter, 'leapexact': w.cert_leapexact}[which]
             sigval = sign_pubdata(cert, s.cal.pub_time, root, work)
         s.calauth = R.cal_auth_record(s.cal.pub_time, root, sigtype='1.2.840.113549.1.1.11', sigval=sigval, certid=cert.id)
         s.calauth_tuple = (s.cal.pub_time, root)
@@ -94,7 +100,7 @@ def make_sig(rng, w, kind, work, t=T0, pub_time=None):
 
 
 def build_pubfile(w, work, pubs):
-    recs = [hdr()] + [cert_rec(c) for c in (w.cert_ok, w.cert_ok2, w.cert_before, w.cert_after, w.cert_ec, w.cert_far, w.cert_farafter)] + [pub_rec(t, h) for t, h in sorted(pubs)]
+    recs = [hdr()] + [cert_rec(c) for c in (w.cert_ok, w.cert_ok2, w.cert_before, w.cert_after, w.cert_ec, w.cert_far, w.cert_farafter, w.cert_leapok, w.cert_leapbefore, w.cert_leapafter, w.cert_leapexact)] + [pub_rec(t, h) for t, h in sorted(pubs)]
     body = MAGIC + b''.join(x.enc() for x in recs)
     return body + sig_rec(w.cert_ok.pkcs7_detached(body, work)).enc()
 
@@ -251,7 +257,7 @@ def expect(policy, sc):
         which = kind.split(':')[1]
         if which == 'absent':
             return ('NA',)
-        if which in ('before', 'after', 'farafter'):
+        if which in ('before', 'after', 'farafter', 'leapbefore', 'leapafter'):
             return ('FAIL', {'KEY-03'})
         if which in ('badsig', 'otherdata', 'ecjunk', 'ecother'):
             return ('FAIL', {'KEY-02'})
@@ -323,10 +329,10 @@ def worker(job, r):
     c('ctx 0')
     c('set_ext 0 ksi+http://ext.example/x anon %s' % key.decode())
     r.count('sessions_with_long_password' if len(key) > 64 else 'sessions_with_short_password')
-    kinds = ['nocal', 'cal', 'pub', 'auth:ok', 'auth:exact', 'auth:before', 'auth:after', 'auth:far', 'auth:farafter', 'auth:absent', 'auth:badsig', 'auth:otherdata', 'auth:ecok', 'auth:ecjunk', 'auth:ecother']
+    kinds = ['nocal', 'cal', 'pub', 'auth:ok', 'auth:exact', 'auth:before', 'auth:after', 'auth:far', 'auth:farafter', 'auth:leapok', 'auth:leapbefore', 'auth:leapafter', 'auth:leapexact', 'auth:absent', 'auth:badsig', 'auth:otherdata', 'auth:ecok', 'auth:ecjunk', 'auth:ecother']
     for i in range(n):
         kind = rng.choice(kinds)
-        t = T0 if kind.startswith('auth') or rng.random() < 0.5 else rng.randrange(1400000000, 1600000000)
+        t = T_LEAP if kind.startswith('auth:leap') else T0 if kind.startswith('auth') or rng.random() < 0.5 else rng.randrange(1400000000, 1600000000)
         ptime = None
         if kind == 'pub' and rng.random() < 0.6 and t == T0:
             ptime = rng.choice(w.pub_times)            # a publication the publications file may list
